@@ -16,6 +16,7 @@ from . import c13_ram as RAM
 from . import c13_req as REQ
 from . import c13_wsgi as WSGI
 from . import c13_file as FILE
+from . import c13_fsched as FS
 
 PROPERTY = 'C13'
 LEAN_TARGETS = ['CpProofs.C13', 'drv_c13']
@@ -34,6 +35,7 @@ THEOREMS = [
     'CpProofs.C13.C13_no_deadlock',
     # (b) FileSession relative to the FileLock contract (threads and processes)
     'CpProofs.C13.C13_file_mutex',
+    'CpProofs.C13.C13_file_ops_locked',
     # (c) request level: every outcome x locking mode x any user hooks
     'CpProofs.C13.C13_released_at_end',
     'CpProofs.C13.close_runHooks',
@@ -52,9 +54,11 @@ LEVEL_TEXT = ('Proved in Lean for ANY number of request threads, ANY schedule (r
               'any lock-timeout placement, relative to the FileLock contract. Request level: for every fault plan (locking '
               'mode x backend x handler script incl. regenerate x outcome x plain/generator/streamed body completed, '
               'abandoned or raising x failing storage x ANY user hooks) the lock is released once close() has run. '
+              'File model at single-file-operation granularity: every truncate/dump/unlink is done by the lock holder and the '
+              'sweep never deletes a file saved after its locked check. '
               'Partial: the atomic-step assumption (bytecode atomicity of single dict/lock operations, OS scheduling) and '
-              'filelock/RLock correctness are parameters; the file model is tied to the code only through request-level '
-              'plans and the multi-process counter test; one contended id, one sweeper, no memcached backend.')
+              'filelock/RLock correctness are parameters (under the scheduler FileLock is replaced by its contract; real filelock '
+              'runs in the request-level plans and the multi-process counter test); one contended id, one sweeper, no memcached.')
 LEVEL_NOTE = ('Trusted: Lean kernel (propext, Classical.choice, Quot.sound only); the hand models as validated by per-step '
               'snapshot comparison with real RamSession threads + real clean_up under a deterministic scheduler (all '
               'schedules with <=1 / <=2 pre-emptions, random and window-targeted ones) and by journal comparison of '
@@ -69,7 +73,7 @@ ASSUMPTIONS = [
     'a single sweeper thread (Session.clean_thread is one Monitor)',
     'the WSGI server calls close() on the response iterable (PEP 3333), which runs on_end_request',
 ]
-RULE = ('schedules of 2-3 real request threads on one session id plus the real clean_up and a logical clock: random, '
+RULE = ('schedules of 2-3 real request threads (RamSession; FileSession on real files) on one session id plus the real clean_up and a logical clock: random, '
         'window-targeted and all schedules with a bounded number of pre-emptions, from sessions live / expired / '
         'absent with and without a lock object in the table; request-level fault plans (backend x locking mode x '
         'outcome x streaming) through in-process WSGI.  Non-trivial: at least two actors executed an enabled step '
@@ -177,13 +181,17 @@ def gen_ram_window(rng):
     return {'kind': 'ram', 'n': n, 'cache': cache, 'tbl': tbl, 'sched': toks + rest, 'init': name}
 
 
-def run_policy(n, cache, tbl, order, preempt, sweeps=1):
+def run_policy(n, cache, tbl, order, preempt, sweeps=1, factory=None, prefix=()):
     """Adaptive schedule: run actors in `order`, each until it finishes / blocks (a free switch),
     except that at global step index k in `preempt` control moves to preempt[k] (a pre-emption).
     The sweeper counts as finished after `sweeps` complete sweeps.  Returns like run_case."""
-    run = RAM.RamRun(n, cache, tbl)
+    run = factory() if factory is not None else RAM.RamRun(n, cache, tbl)
     try:
         snaps, toks = [], []
+        for t in prefix:
+            run.step(t)
+            toks.append(t)
+            snaps.append(run.snapshot())
         sweeps_done = [0]
         started_sweep = [False]
 
@@ -460,6 +468,98 @@ def wsgi_systematic(n_preempt_points=14):
 
 
 # ------------------------------------------------------------------------------------------------
+# (b) file backend: real FileSession threads + real clean_up under the scheduler
+# ------------------------------------------------------------------------------------------------
+def fsched_oracle(case, toks, obs):
+    bad = []
+    if obs['unlocked_ops']:
+        bad.append(('a mutating / destructive operation on the session file ran while the actor did not hold '
+                    'the session lock: %s' % obs['unlocked_ops'][:3],
+                    'fsched:unlocked_file_op:' + obs['unlocked_ops'][0].split('(')[0].split(':', 1)[1]))
+    if obs['lost']:
+        bad.append(('lost update on the file backend: %s' % obs['lost_why'], 'fsched:lost_update'))
+    for name, exc in sorted(obs['errors'].items()):
+        who = 'clean_up()' if name == 'S' else 'request thread %s' % name
+        bad.append(('%s raised %s' % (who, exc), 'fsched:raised:%s' % ('sweeper' if name == 'S' else 'request')))
+    if obs['blocked']:
+        bad.append(('request(s) %s blocked forever on the session file lock (held by %s)'
+                    % (obs['blocked'], obs['held_by']), 'fsched:blocked_forever'))
+    elif obs['held_by'] and not obs['unfinished']:
+        bad.append(('file lock still held by %s after everybody ended' % obs['held_by'], 'fsched:lock_leak'))
+    f = case.get('file')
+    if f is not None and f[1] >= 50 and not any(t.startswith('K') for t in toks) and not obs['unfinished'] \
+            and not obs['errors']:
+        want = '%d:' % (f[0] + obs['saves'])
+        if not obs['file'].startswith(want):
+            bad.append(('file backend: stored counter %s, expected %d (= %d + %d saves)'
+                        % (obs['file'], f[0] + obs['saves'], f[0], obs['saves']), 'fsched:counter'))
+    return bad
+
+
+def check_fsched(ctx, items, compare=True):
+    lines = [FS.model_line(case, toks) for case, snaps, toks, obs in items]
+    model = ctx.model(lines) if compare else None
+    for idx, (case, snaps, toks, obs) in enumerate(items):
+        full = dict(case, sched=toks)
+        full.pop('init', None)
+        acted, prev = set(), None
+        for t, sn in zip(toks, snaps):
+            if sn != prev and not t.startswith('K'):
+                acted.add(t)
+            prev = sn
+        ctx.case(full, nontrivial=len(acted) >= 2, key=lines[idx])
+        ctx.count('fsched:n=%d' % case['n'])
+        ctx.count('fsched:init=' + case.get('init', '?'))
+        for r, v in obs['results'].items():
+            ctx.count('fsched:thread=' + (v or ('crashed' if r in obs['errors'] else 'blocked')))
+        if any(';W=rel' in a and ';C=A;' in a for a in snaps):
+            ctx.count('fsched:sweep_unlinked')
+        for what, sig in fsched_oracle(case, toks, obs):
+            ctx.oracle_fail(full, what, sig)
+        if model is not None:
+            ctx.compared()
+            m = model[idx].split('|') if model[idx] != '-' else []
+            if m != snaps:
+                k = next((i for i, (a, b) in enumerate(zip(m, snaps)) if a != b), min(len(m), len(snaps)))
+                ctx.disagree(full, {'step': k, 'snapshot': snaps[k] if k < len(snaps) else None},
+                             {'step': k, 'snapshot': m[k] if k < len(m) else None},
+                             'FileSession per-step snapshot (lock holder, file, program counters) differs at '
+                             'step %d (token %s)' % (k, toks[k] if k < len(toks) else '?'))
+
+
+def _fenum_chunk(args):
+    name, file0, prefix, order, bound = args
+    items = []
+    for o, pre in enum_policies(2, bound, 22):
+        if o != order:
+            continue
+        # pre-emption indices count steps after the prefix
+        pre = {k + len(prefix): a for k, a in pre.items()}
+        snaps, toks, obs = run_policy(2, None, False, order, pre, factory=lambda: FS.FileRun(2, file0),
+                                      prefix=prefix)
+        items.append(({'kind': 'fsched', 'n': 2, 'file': file0, 'init': name}, snaps, toks, obs))
+    return items
+
+
+def fsched_stream(ctx, n_random, preempt_bound, compare=True):
+    items = []
+    for _ in range(n_random):
+        case = FS.gen_random(ctx.rng)
+        snaps, toks, obs = FS.run_case(case)
+        items.append((case, snaps, toks, obs))
+    check_fsched(ctx, items, compare)
+    chunks = [(name, file0, prefix, order, preempt_bound)
+              for name, file0, prefix in FS.INITS[:3]
+              for order in itertools.permutations(['0', '1', 'S'])]
+    results = [_fenum_chunk(c) for c in chunks] if ctx.quick() else common.parallel_map(_fenum_chunk, chunks)
+    count = 0
+    for its in results:
+        count += len(its)
+        check_fsched(ctx, its, compare)
+    ctx.extra['file_preemption_bounded_schedules'] = ctx.extra.get('file_preemption_bounded_schedules', 0) + count
+
+
+# ------------------------------------------------------------------------------------------------
 # (b) file backend across processes (real filelock)
 # ------------------------------------------------------------------------------------------------
 def check_file_processes(ctx, procs, incs, sweeps):
@@ -499,6 +599,9 @@ def run_one(ctx, case, variant, compare=True):
         check_wsgi(ctx, [case])
     elif kind == 'fileproc':
         check_file_processes(ctx, case['procs'], case['incs'], case['sweeps'])
+    elif kind == 'fsched':
+        snaps, toks, obs = FS.run_case(case)
+        check_fsched(ctx, [(case, snaps, toks, obs)], compare)
     else:
         raise common.HarnessError('unknown case kind %r' % kind)
 
@@ -514,24 +617,38 @@ def run(ctx):
             run_one(ctx, w, variant)
     for c in corpus_cases():
         run_one(ctx, c, variant)
-    ram_stream(ctx, variant, ctx.budget(250, 6000), ctx.budget(250, 6000), ctx.budget(1, 2))
+    import time as _t
+    t0 = _t.time()
+
+    def lap(name):
+        nonlocal t0
+        ctx.note('%s: %.1fs' % (name, _t.time() - t0))
+        t0 = _t.time()
+    ram_stream(ctx, variant, ctx.budget(150, 6000), ctx.budget(150, 6000), ctx.budget(1, 2))
+    lap('ram schedules')
+    fsched_stream(ctx, ctx.budget(150, 6000), ctx.budget(1, 2))
+    lap('file schedules')
     check_req(ctx, targeted_plans(ctx.rng))
-    check_req(ctx, [REQ.gen_plan(ctx.rng) for _ in range(ctx.budget(600, 12000))])
+    check_req(ctx, [REQ.gen_plan(ctx.rng) for _ in range(ctx.budget(400, 12000))])
+    lap('request plans')
     check_wsgi(ctx, wsgi_systematic())
-    check_wsgi(ctx, [WSGI.gen_case(ctx.rng) for _ in range(ctx.budget(150, 2500))])
-    if any('file' in str(sig) for _, _, sig in ctx.oracle_failures):
+    check_wsgi(ctx, [WSGI.gen_case(ctx.rng) for _ in range(ctx.budget(120, 2500))])
+    lap('wsgi threads')
+    if any('file' in str(sig) or 'fsched' in str(sig) for _, _, sig in ctx.oracle_failures):
         # a file lock that is not released would make the worker processes wait for ever
         ctx.note('multi-process file test skipped: the file backend already failed the oracle')
     else:
         check_file_processes(ctx, 2, ctx.budget(15, 200), ctx.budget(5, 60))
         if not ctx.quick():
             check_file_processes(ctx, 4, 100, 60)
+    lap('file processes')
 
 
 def search(ctx, around=None):
     _setup_cherrypy()
     variant, _ = RAM.detect_variant()
     ram_stream(ctx, variant, 1500, 1500, 1, compare=False)
+    fsched_stream(ctx, 1500, 1, compare=False)
     check_req(ctx, targeted_plans(ctx.rng), compare=False)
     check_req(ctx, [REQ.gen_plan(ctx.rng) for _ in range(3000)], compare=False)
     check_wsgi(ctx, wsgi_systematic())
@@ -556,6 +673,15 @@ def replay(ctx, case):
         print('impl :', json.dumps(r, sort_keys=True))
         m = ctx.model([REQ.plan_line(case)])
         print('model:', m[0] if m else None)
+    elif case.get('kind') == 'fsched':
+        snaps, toks, obs = FS.run_case(case)
+        m = ctx.model([FS.model_line(case, toks)])
+        ms = m[0].split('|') if m else []
+        for i, t in enumerate(toks):
+            print('%3d %-3s impl  %s' % (i, t, snaps[i]))
+            if ms and i < len(ms) and ms[i] != snaps[i]:
+                print('        model %s' % ms[i])
+        print('observed:', json.dumps(obs, sort_keys=True))
     elif case.get('kind') == 'wsgi':
         toks, obs = WSGI.run_case(case)
         print('schedule:', ' '.join(toks))
